@@ -81,6 +81,193 @@ def build(repo, kw, kx):
   return pe, fac, w, x, m
 
 
+QF = "qkeras.qtools.quantized_operators.quantizer_factory"
+
+
+def rule_conversion(rep, repo, tier):
+  """R9 (operand types): (a) the quantizer factory is closed on qtools
+  objects - handing it an operand type it produced itself (as the graph
+  update does for propagated edge types) returns the same class with the
+  same mode / bits / int_bits / sign; (b) conversion soundness - for qkeras
+  quantizers without a data-dependent scale, every value of the quantizer's
+  abstract output value set is representable in the operand type the factory
+  derives from it (fixed point: grid 2**-(bits-int_bits-sign) inside the
+  two's-complement range; modes 2/3/4: {-1,0,1} / {-1,1} / {0,1})."""
+  import itertools
+  from .. import quant
+  from ..pe import ConfigRejected, Obj, Unsupported
+  from ..qir import value_set
+  from ..vset import VS
+  qf = repo.module(QF)
+  qi = repo.module(ta.QI)
+  if "QuantizerFactory" not in qf.classes:
+    raise AnalysisError("anchor-missing class QuantizerFactory")
+  unit = "%s::QuantizerFactory" % qf.relpath
+  rep.unit(unit)
+  loc = qf.loc(qf.classes["QuantizerFactory"].node)
+  fields = ("mode", "bits", "int_bits", "is_signed")
+  # (a)
+  n = 0
+  for cname, ci in sorted(qi.classes.items()):
+    if cname in ("IQuantizer", "FloatingPoint") or "IQuantizer" not in [
+        c.name for c in ci.mro()]:
+      continue
+    pe = PE(repo)
+    pe.opaque_ext = True
+    fac = pe.call(pe.lookup_global("QuantizerFactory", qf), [], {})
+    q = pe.call(pe.lookup_global(cname, qi), [], {})
+    if q.attrs.get("mode") == 0:
+      q.attrs["bits"], q.attrs["int_bits"] = 6, 2
+    elif q.attrs.get("mode") == 1:
+      q.attrs["bits"] = q.attrs["int_bits"] = 4
+    before = tuple(q.attrs.get(f) for f in fields)
+    try:
+      r = pe.call(pe.getattr(fac, "make_quantizer"), [q], {})
+    except PyRaise as e:
+      rep.fail("R9", unit, "factory-not-closed:" + cname,
+               "make_quantizer(%s object) raises %s" % (cname, e), loc=loc)
+      continue
+    n += 1
+    after = tuple(r.attrs.get(f) for f in fields) if isinstance(
+        r, Obj) else None
+    rep.check(isinstance(r, Obj) and r.cls is ci and after == before, "R9",
+              unit, "factory-not-closed:" + cname,
+              "make_quantizer(%s object with %s) returns %s with %s: an "
+              "edge type that is handed on through the factory changes" %
+              (cname, dict(zip(fields, before)),
+               r.cls.name if isinstance(r, Obj) else r,
+               dict(zip(fields, after)) if after else None), loc=loc)
+  if n < 8:
+    raise AnalysisError("instance-count only %d operand classes" % n)
+  # (b)
+  unit_b = "%s::convert_qkeras_quantizer" % qi.relpath
+  rep.unit(unit_b)
+  bits_r = (1, 2, 3, 4, 6) if tier == "quick" else range(1, 9)
+  int_r = (0, 1, 2) if tier == "quick" else (-1, 0, 1, 2, 3)
+  lat = []
+  for b, i in itertools.product(bits_r, int_r):
+    if b >= 2:
+      for kn in (True, False):
+        lat.append(("quantized_bits", dict(bits=b, integer=i,
+                                           keep_negative=kn)))
+    lat.append(("quantized_relu", dict(bits=b, integer=i)))
+  lat += [("binary", dict(use_01=u)) for u in (False, True)]
+  lat += [("ternary", {}), ("stochastic_ternary", {}),
+          ("stochastic_binary", {}), ("bernoulli", {})]
+  lat += [("quantized_tanh", dict(bits=b)) for b in (2, 4, 6)]
+  m = 0
+  for cls, kw in lat:
+    cfg = "%s(%s)" % (cls, ",".join("%s=%s" % kv for kv in kw.items()))
+    try:
+      b_ = quant.build(repo, cls, kw)
+    except ConfigRejected:
+      continue
+    vs = value_set(b_.fwd("infer"))
+    pe = b_.pe
+    pe.opaque_ext = True
+    fac = pe.call(pe.lookup_global("QuantizerFactory", qf), [], {})
+    try:
+      t = pe.call(pe.getattr(fac, "make_quantizer"), [b_.obj], {})
+    except (PyRaise, Unsupported) as e:
+      rep.fail("R9", unit_b, "conversion-raises", "%s: %s" % (cfg, e),
+               loc=loc, instance=cfg)
+      continue
+    if not isinstance(t, Obj):
+      continue
+    mode, tb, ti, tsg = (t.attrs.get(f) for f in fields)
+    sg = int(bool(tsg))
+    if mode == 0:
+      frac = F(tb) - F(ti) - sg
+      step = F(2) ** int(-frac) if frac.denominator == 1 else None
+      if step is None:
+        continue
+      hi = F(2) ** int(ti) - step
+      lo = -(F(2) ** int(ti)) if sg else F(0)
+      repset = VS.grid(step, 0, lo, hi)
+      txt = "fixed point bits=%s int_bits=%s signed=%d: multiples of %s in " \
+          "[%s, %s]" % (tb, ti, sg, step, lo, hi)
+    elif mode == 2:
+      repset, txt = VS.fin([-1, 0, 1]), "ternary {-1,0,1}"
+    elif mode == 3:
+      repset, txt = VS.fin([-1, 1]), "binary {-1,1}"
+    elif mode == 4:
+      repset, txt = VS.fin([0, 1]), "binary {0,1}"
+    else:
+      continue
+    m += 1
+    rep.check(vs.subset_of(repset), "R9", unit_b,
+              "value-not-representable-in-converted-type:" + cls,
+              "%s emits %r, the operand type derived from it is %s" %
+              (cfg, vs, txt), loc=loc, instance=cfg)
+  if m < 30:
+    raise AnalysisError("instance-count only %d conversions checked" % m)
+
+
+def rule_po2_product(rep, repo, tier):
+  """R10: po2 x po2 products (the Adder cell).  For concrete operand types
+  (signed / unsigned, bits, max_value cap) the exponent range the output type
+  reports through get_min_max_exp must contain every sum of two operand
+  exponents."""
+  import itertools
+  mf = repo.module(MF)
+  qi = repo.module(ta.QI)
+  unit = "qkeras/qtools/quantized_operators/multiplier_impl.py::Adder"
+  rep.unit(unit)
+  bits_r = (2, 3, 4) if tier == "quick" else (2, 3, 4, 5, 6)
+  caps = (-1, 1, 2, 8) if tier == "quick" else (-1, F(1, 2), 1, 2, 4, 8, 64)
+  ops = [(c, b, mv) for c in ("PowerOfTwo", "ReluPowerOfTwo")
+         for b in bits_r for mv in caps]
+  n = 0
+  for (c1, b1, m1), (c2, b2, m2) in itertools.product(ops, ops):
+    if (c1, b1, str(m1)) > (c2, b2, str(m2)) and tier == "quick":
+      continue   # the symmetric call is covered by R2
+    pe = PE(repo)
+    fac = pe.call(pe.lookup_global("MultiplierFactory", mf), [], {})
+
+    def mk(c, b, m):
+      q = pe.call(pe.lookup_global(c, qi), [], {})
+      q.attrs["bits"] = q.attrs["int_bits"] = b
+      q.attrs["max_val_po2"] = m
+      return q
+    w, x = mk(c1, b1, m1), mk(c2, b2, m2)
+    try:
+      mn1, mx1 = pe.call(pe.getattr(w, "get_min_max_exp"), [], {})
+      mn2, mx2 = pe.call(pe.getattr(x, "get_min_max_exp"), [], {})
+      m = pe.call(pe.getattr(fac, "make_multiplier"), [w, x], {})
+      o = m.attrs["output"]
+      mno, mxo = pe.call(pe.getattr(o, "get_min_max_exp"), [], {})
+    except PyRaise as e:
+      rep.fail("R10", unit, "po2-product-raises", "raises %s" % e)
+      continue
+    n += 1
+    show_op = lambda c, b, mv: "%s(bits=%d%s)" % (
+        "po2" if c == "PowerOfTwo" else "relu_po2", b,
+        "" if mv == -1 else ",max_value=%s" % mv)
+    cfg = "%s x %s" % (show_op(c1, b1, m1), show_op(c2, b2, m2))
+    capped = "one-sided-cap" if (m1 == -1) != (m2 == -1) else (
+        "no-cap" if m1 == -1 else "both-capped")
+    mixed = "mixed-sign" if c1 != c2 else (
+        "signed" if c1 == "PowerOfTwo" else "unsigned")
+    import math as _m
+
+    def true_max(mx, cap):
+      # get_min_max_exp never reports a negative maximum; with a cap below
+      # one the largest exponent really is ceil(log2(cap)) < 0
+      return min(F(mx), F(_m.ceil(_m.log2(float(cap))))) if cap != -1 \
+          else F(mx)
+    mx1, mx2 = true_max(mx1, m1), true_max(mx2, m2)
+    rep.check(F(mxo) >= F(mx1) + F(mx2), "R10", unit,
+              "product-max-exponent-too-small:%s:%s" % (capped, mixed),
+              "%s: operand exponents reach %s and %s, the product type "
+              "reports max exponent %s" % (cfg, mx1, mx2, mxo), instance=cfg)
+    rep.check(F(mno) >= F(mn1) + F(mn2), "R10", unit,
+              "product-min-exponent-too-large:%s:%s" % (capped, mixed),
+              "%s: operand exponents reach -%s and -%s, the product type "
+              "reports min exponent -%s" % (cfg, mn1, mn2, mno), instance=cfg)
+  if n < 100:
+    raise AnalysisError("instance-count only %d po2 x po2 pairs" % n)
+
+
 def run(rep, repo, tier):
   DOM.clear()
   DOM.update(DOM_THOROUGH if tier == "thorough" else DOM_QUICK)
@@ -295,6 +482,10 @@ def run(rep, repo, tier):
   from .c18 import rule_po2_exponents
   rule_po2_exponents(rep, repo, tier, rule="R8")
   rep.require_instances("R8", 200)
+  rule_conversion(rep, repo, tier)
+  rep.require_instances("R9", 40)
+  rule_po2_product(rep, repo, tier)
+  rep.require_instances("R10", 200)
   rep.require_instances("R1", 36)
   rep.require_instances("R2", 60)
   rep.require_instances("R3", 36)
